@@ -113,12 +113,24 @@ def gen_case(rng, tier, pid, n):
                 mods.append((tgt, terms))
     ratemod = {}
     if pid == "C13" and reacs and rng.random() < 0.8:
-        idxs = [r.idx for r in reacs]
+        shared = None
+        if indexed and rng.random() < 0.4 and len(reacs) >= 2:
+            # an index shared by several reactions (one KIDA/UMIST reaction listed once per temperature range)
+            grp = rng.sample(range(len(reacs)), min(len(reacs), rng.randint(2, 3)))
+            shared = reacs[grp[0]].idx
+            for g in grp[1:]:
+                reacs[g].idx = shared
+        if indexed and rng.random() < 0.3 and len(reacs) >= 2:
+            # a partially indexed network (a database file plus hand-added reactions): the indices that exist stay in force
+            for g in rng.sample(range(len(reacs)), rng.randint(1, len(reacs) - 1)):
+                if reacs[g].idx != shared:
+                    reacs[g].idx = -1
+        idxs = [r.idx for r in reacs if r.idx != -1] or [99999]
         for _ in range(rng.randint(1, 3)):
             key = rng.choice(idxs + [99999, 0]) if indexed else rng.choice(list(range(len(reacs))) + [99999])
             ratemod[key] = rng.choice(["1.0e-10", "2.0 * zeta", "1e-9*exp(-10.0/Tgas)", "0.0"])
-        if indexed and rng.random() < 0.3 and len(reacs) >= 2:
-            reacs[1].idx = reacs[0].idx  # an index shared by two reactions
+        if shared is not None and rng.random() < 0.8:
+            ratemod[shared] = rng.choice(["3.0e-10", "2.0 * zeta"])
     return {"species": sub, "reacs": reacs, "required": required, "entry": entry, "cooling": cooling,
             "mods": mods, "ratemod": ratemod, "indexed": indexed}
 
@@ -495,6 +507,8 @@ def run(pid: str, argv):
             if d["elements"] != c20.UPPER_ELEMENTS:
                 d["rate_modifier"] = {str(chk.rng.choice([1, 2, 5])): chk.rng.choice(["1.0e-10", "2.0 * zeta"]), "7": "1e-9*exp(-10.0/Tgas)"}
                 d["ode_modifier"] = {chk.rng.choice(["H2", "CO"]): {"factors": ["1e-3", "-2.0*k[0]"], "reactants": [["H"], ["CO", "He"]]}}
+                d.pop("ode_modifier_terms", None)
+                d["ode_modifier_cuts"] = [1] if chk.rng.random() < 0.5 else []    # one or two occurrences of the option
             else:
                 d["rate_modifier"] = {"2": "2.0 * zeta"}
             descs.append(d)
@@ -563,8 +577,23 @@ def compare_model(chk: Check, pid, case, rd: Rendered, ans):
 # ------------------------------------------------------------------------------------ oracles
 
 
+def batch_check(chk, case, rd, which):
+    """cusparse: every system of a batch must read and write its own NEQUATIONS / NNZ entries"""
+    if rd.backend != "cusparse":
+        return
+    for what, cur, got, want in rd.batch_layout():
+        if not what.startswith(which):
+            continue
+        if got != want:
+            chk.violation({"kind": "batch-offset", "what": what},
+                          f"cusparse {what}: system {cur} of a batch is addressed at offset {got}, its data is at {want} "
+                          f"(NSPECIES={rd.nspec}, NEQUATIONS={rd.neqns}, NNZ={rd.nnz})", input=case_summary(case))
+            return
+
+
 def oracle_c01(chk, case, net, rd, rds):
     summ = case_summary(case)
+    batch_check(chk, case, rd, ("fex", "Fex"))
     res, err = expected_fex(case, rd)
     if err:
         chk.violation({"kind": "slot", "backend": rd.backend, "msg": err}, err, input=summ)
@@ -617,6 +646,7 @@ def witness_point(diff: Poly, rng):
 
 
 def oracle_c02(chk, case, net, rd, rds):
+    batch_check(chk, case, rd, ("jac-y", "Jac"))
     summ = case_summary(case)
     fx = polys_of_fex(rd)
     ents, _ = jac_entries(rd)
@@ -642,6 +672,7 @@ def oracle_c02(chk, case, net, rd, rds):
 
 
 def oracle_c03(chk, case, net, rd, rds):
+    batch_check(chk, case, rd, ("fex", "Fex", "jac", "Jac"))
     summ = case_summary(case)
     b = rd.backend
     # -- declared sizes
